@@ -27,6 +27,8 @@ pub enum Op {
 	RunU,
 	/// raw Control::ContinueTryGracefulRestart through Job::control()
 	ContinueRaw,
+	/// `signal(Signal::ForceStop)`: kills the process without the job waiting for it
+	SigKill,
 	/// `signal(SIGNALS[i])` — the whole Signal enumeration (C06 side table)
 	SigVar(u8),
 	/// `stop_with_signal(SIGNALS[i], grace)`
@@ -92,8 +94,9 @@ pub fn signal_table() -> Vec<(watchexec_signals::Signal, i32)> {
 	v
 }
 
-pub const CORE: [Op; 12] = [
+pub const CORE: [Op; 13] = [
 	Op::ContinueRaw,
+	Op::SigKill,
 	Op::Start,
 	Op::Stop,
 	Op::GStop,
